@@ -114,6 +114,17 @@ def gen_scenarios(cls, rng, tier):
         for init in (inits if tier == "thorough" else rng.sample(inits, 2)):
             out.append(scenario_case("s%s%d" % (cls, idx), cls, n, init, [[a], [b]]))
             idx += 1
+    # adjacency lists with two entries, and two concurrent calls of which at least one REMOVES from them (disconnect /
+    # isolate vs any mutation): positions shift under the other thread's feet. All of these lie in known-finding classes,
+    # so only the exact comparison with the model's outcome of the same schedule can tell a new defect there.
+    if tier != "thorough":
+        removers = [c for c in calls if c.split()[0] in ("dis", "iso")]
+        mutators = [c for c in calls if c.split()[0] in ("dis", "iso", "con", "try")]
+        two = [[p, q] for p in itertools.product(range(n), repeat=2) for q in itertools.product(range(n), repeat=2)]
+        picks = [(a, b, init) for a in removers for b in mutators for init in two]
+        for (a, b, init) in rng.sample(picks, 260):
+            out.append(scenario_case("r%s%d" % (cls, idx), cls, n, init, [[a], [b]]))
+            idx += 1
     # 2 threads x 2 calls, 3 threads x 1 call, 3 nodes: sampled
     calls3 = calls_for(cls, 3)
     for i in range(4000 if tier == "thorough" else 120):
